@@ -1037,6 +1037,34 @@ async fn run_case(case: &Sx, rt: tokio::runtime::Handle) -> Result<Sx, String> {
                 w.restart(step.arg(1).is_sym("ro")).await;
                 obs.push(Sx::L(vec![Sx::sym("restart"), w.disk(), w.stats().await]));
             }
+            "poke" => {
+                // ( poke tu off width ): overwrite `width` bytes at absolute offset `off mod len` of the stored
+                // RESULT entry of the unit — any structural region of the archive (local headers, names, central
+                // directory, end-of-central-directory record) or payload.  The model is not consulted for
+                // histories with this step (the class of the damage depends on the archive layout); the
+                // property monitor judges the real behaviour.
+                let tu = step.arg(1).u64() as usize;
+                let off = step.arg(2).u64() as usize;
+                let width = std::cmp::max(1, step.arg(3).u64() as usize);
+                if w.cache.is_dir() {
+                    w.learn_from_disk();
+                    let key = w.keys.lock().unwrap().get(&tu).cloned().unwrap_or((None, None)).1;
+                    if let Some(k) = key {
+                        let path = res_path(&w.cache, &k);
+                        if path.is_file() {
+                            let mut b = std::fs::read(&path).unwrap();
+                            if !b.is_empty() {
+                                let start = off % b.len();
+                                for i in start..std::cmp::min(b.len(), start + width) {
+                                    b[i] = b[i].wrapping_add(1 + (i - start) as u8);
+                                }
+                                std::fs::write(&path, &b).unwrap();
+                            }
+                        }
+                    }
+                }
+                obs.push(Sx::L(vec![Sx::sym("poke"), w.disk()]));
+            }
             "restart_broken" => {
                 // the cache directory cannot be opened when the new server first touches its stores
                 let saved = w.dir.path().join("cache.saved");
